@@ -12,7 +12,8 @@ ID = "C19"
 LEVEL = "exploration"
 RULE = ("case = (arbiter class, nreqs 2..9, scheduler incl. seeded S2 variants and forced/adversarial "
         "linear extensions, seeded object-hash stream, 20..80 cycles of reqs/en with mid-run resets, "
-        "input glitches and duplicate evaluations); non-trivial = at least one fault kind fired and at "
+        "input glitches and duplicate evaluations; in 4 of 7 cases the arbiter is a sub-component of a design "
+        "with 0..3 registers of its own); non-trivial = at least one fault kind fired and at "
         "least 3 granting cycles with >=2 simultaneous requesters; distinct = distinct case digest")
 TIERS = {"quick": {"runs": 3200, "budget_s": 90}, "thorough": {"runs": 400000, "budget_s": 900}}
 REAL = ["pymtl3.stdlib.basic_rtl.arbiters.RoundRobinArbiter(En)", "RegEnRst", "all five pass groups",
